@@ -61,7 +61,25 @@ def check_kernel_choice(ctx, ck, rule='R-DEP.kernel-choice'):
                     bases.setdefault(norm(b), (b, [c_ for c_ in p_.conds if isinstance(c_[0], str) and
                                                    re.search(r'\b%s\b' % kname, c_[0]) and len(c_[0]) < 40]))
         if not bases:
-            continue
+            # the call is not a statement of its own on the walk (`return self.psi(..)`): judged by what the mask is
+            # computed from - when the image index is not among its roots the answer is the same
+            fl_ = ctx.flow(f)
+            und = False
+            for c_ in walk_no_nested(f.node):
+                if isinstance(c_, ast.Call) and isinstance(c_.func, ast.Attribute) and c_.func.attr == 'psi':
+                    v = {k_.arg: k_.value for k_ in c_.keywords}.get('exact')
+                    if v is None:
+                        continue
+                    b = v.value if isinstance(v, ast.Subscript) else v
+                    r_ = fl_.roots(b, fl_.node_id_of(c_))
+                    if ('param', kname) in r_:
+                        und = True
+                    else:
+                        bases[norm(b)] = (b, [])
+            if und:
+                raise AnalysisError('%s: the exact-kernel mask handed to psi depends on %s in a way that is not followed' % (q, kname))
+            if not bases:
+                continue
         n += 1
         dep = [t_ for t_, (b, cs) in bases.items() if any(isinstance(x_, ast.Name) and x_.id == kname for x_ in ast.walk(b))]
         ok = len(bases) == 1 and not dep
